@@ -7,7 +7,7 @@ op `lat …` (C09): the lattice / Miller model run in Float.  Floats cross as 16
   lat i4 <hkil2hkl|UVTW2uvw> <q:4>               4-index → 3-index                                         → 3
   lat i4 check <q:4>                             `_check_hkil/_check_UVTW`                                 → 0|1
   lat align <B:9>                                `_new_structure_matrix_from_alignment`                    → exact:9 rounded:9
-  lat phase <B:9> <n> <frac:3n>                  `Phase.structure` setter                                  → base:9 recbase:9 metrics:9 frac:3n
+  lat phase <n> <B:9> <frac:3n>                  `Phase.structure` setter                                  → base:9 recbase:9 metrics:9 frac:3n
   lat abc <B:9>                                  `abcABG()` of `Lattice(base=B)`                           → 6
   lat mil <fmt-in> <fmt-out> <B:9> <coords:3|4>  `Miller(fmt-in=coords).fmt-out`, then `.length`            → coords… length
   lat dot|cross|angle <fmt1> <fmt2> <pg1> <pg2> <B1:9> <B2:9> <c1> <c2>
